@@ -71,6 +71,9 @@ def apalache_inductive(ctx):
   ctx.checker_cmds.append('apalache-mc check --init=IndInit --inv=IndInvAndMono --length=1 TestInfoInd.tla')
 
 
+CROSS_ORDERS = [('rsa', 'ec', 'ecdsa', 'rsa'), ('ec', 'rsa', 'ecdsa'), ('ecdsa', 'rsa', 'ec')]
+
+
 def replay_and_validate(ctx, plans, label, detail_keys=('kind',), cheap_ec=None, pre_annotate=True, directed=True):
   cheap_ec = ctx.quick if cheap_ec is None else cheap_ec
   jobs = []
@@ -86,6 +89,11 @@ def replay_and_validate(ctx, plans, label, detail_keys=('kind',), cheap_ec=None,
     sid = '%s-%s-directed-%s' % (label, kind, name)
     if not ctx.only_sid or ctx.only_sid.startswith(sid):
       jobs.append((kind, sid, clsmap, hist, ctx.seed, cheap_ec, pre_annotate))
+  # the three entry points in one process, in three orders
+  for order in CROSS_ORDERS if (directed and label in ('C16', 'C18')) else []:
+    sid = '%s-cross-%s' % (label, '.'.join(order))
+    if not ctx.only_sid or ctx.only_sid.startswith(sid):
+      jobs.append(('cross', sid, list(order), ctx.seed, cheap_ec))
   results = scen.run_parallel(jobs)
   recs = []
   for sid, rs, err in results:
